@@ -147,6 +147,9 @@ pub trait RepSrc { type Item: Interp; fn as_rep_slice(&self) -> (r: &[Self::Item
 impl<T: Interp> RepSrc for Vec<T> { type Item = T; open spec fn rep_view(&self) -> Seq<T> { self@ } #[verifier::external_body] fn as_rep_slice(&self) -> (r: &[T]) { self.as_slice() } }
 impl<'a, T: Interp> RepSrc for &'a [T] { type Item = T; open spec fn rep_view(&self) -> Seq<T> { (*self)@ } #[verifier::external_body] fn as_rep_slice(&self) -> (r: &[T]) { *self } }
 
+// quote! also iterates iterators; the eager stand-ins of filter_map & co return a vec::IntoIter whose `remaining()` is the element sequence
+impl<T: Interp> RepSrc for std::vec::IntoIter<T> { type Item = T; open spec fn rep_view(&self) -> Seq<T> { crate::prelude::elems(self) } #[verifier::external_body] fn as_rep_slice(&self) -> (r: &[T]) { self.as_slice() } }
+
 // ---- format!/panic! stand-ins ----
 pub enum FmtV { U(int), S(Seq<char>), Tk(Tok), SF(naga::StorageFormat), VF(wgpu_types::VertexFormat) }
 pub struct FmtHandle { pub v: Ghost<FmtV> }
